@@ -13,7 +13,7 @@ import (
 )
 
 func init() {
-	expl := "The list semantics of an arbitrarily nested iterator expression is behavioural; what is decided is that each combinator obeys its iterator protocol, as path constraints with branch polarities (engine P), each a necessary condition: nil-is-empty (no method is invoked on an iterator parameter or user-returned iterator unless non-nil was established on the path; iterator-valued fields are proven non-nil in every object a constructor returns and at every `return true` of Next); eager-position (constructors return non-nil only after a positive test of the current element, advance with Next() otherwise, return nil when Next() is false); the Next protocols of takeWhile (true => inner Next true then predicate true on the fresh element, once each, in that order; inner false => false without calling the predicate), filter (false predicate loops to the inner Next; false only after inner false), plus (inner true => true without state change; inner false and rhs != nil => Seq := rhs, rhs := nil, true without calling rhs.Next(); else false) and the join family (inner true => true; else advance lhs; lhs false => false; Seq := rhs(current lhs element); non-nil => true); map.Value = f(inner current); leaves; ForEach = drain idiom, f once per element, first error returned at once; predicates and join functions always receive the element the inner iterator is positioned on (values read after the last Next of that iterator on the path); no store through an element address of a slice and no append onto a caller's slice (source slices are never modified). With these constraints induction over the expression tree gives list semantics - the induction itself and the user functions are not decided."
+	expl := "The list semantics of an arbitrarily nested iterator expression is behavioural; what is decided is that each combinator obeys its iterator protocol, as path constraints with branch polarities (engine P), each a necessary condition: nil-is-empty (no method is invoked on an iterator parameter or user-returned iterator unless non-nil was established on the path; iterator-valued fields are proven non-nil in every object a constructor returns and at every `return true` of Next); eager-position (constructors return non-nil only after a positive test of the current element, advance with Next() otherwise, return nil when Next() is false); the Next protocols of takeWhile (true => inner Next true then predicate true on the fresh element, once each, in that order; inner false => false without calling the predicate), filter (false predicate loops to the inner Next; false only after inner false), plus (inner true => true without state change; inner false and rhs != nil => Seq := rhs, rhs := nil, true without calling rhs.Next(); else false) and the join family (inner true => true; else advance lhs; lhs false => false; Seq := rhs(current lhs element); non-nil => true); map.Value = f(inner current); leaves; ForEach = drain idiom, f once per element, first error returned at once; predicates and join functions always receive the element the inner iterator is positioned on (values read after the last Next of that iterator on the path); no store through an element address of a slice and no append onto a caller's slice (source slices are never modified). With these constraints induction over the expression tree gives list semantics - the induction itself and the user functions are not decided. state-persists: a method that assigns a field of its value receiver's copy - the copy being used for nothing but field accesses - has lost that assignment (the iterator's progress must be written through a pointer receiver)."
 	register(&Pack{ID: "C14", Run: func(c *core.Ctx) { runIter(c, "trait/seq", false) }, Meta: core.Meta{
 		Level: "other", Explanation: expl,
 		RuleText:    "one obligation per (combinator, rule)",
